@@ -345,7 +345,25 @@ def pair_agreement_rule(chk: Check, eng: Engine, rule: str) -> None:
     content (`set_children`), the guarding test must compare *the two* messages: each conjunct depends on both loop variables (a conjunct over
     one of them is a tautology or says nothing about agreement), and sender, recipient and the message type are each compared."""
     pf = eng.cls("fandango.io.navigation.packetforecaster", "PacketForecaster")
-    pr = eng.method(pf, "predict", inherited=False)
+    predict = eng.method(pf, "predict", inherited=False)
+    # predict itself and the private helpers of the class it calls (the comparison loop may have been extracted)
+    scopes = [predict]
+    for sc in scopes:
+        if len(scopes) >= 6:
+            break
+        for c in walk_local(sc.node):
+            if isinstance(c, ast.Call) and isinstance(c.func, ast.Attribute) and isinstance(c.func.value, ast.Name) and c.func.value.id in ("self", "cls", pf.name):
+                h = pf.lookup(c.func.attr)
+                if h is not None and h not in scopes and h.cls is pf:
+                    scopes.append(h)
+    n = 0
+    for pr in scopes:
+        n += _pair_agreement_in(chk, eng, rule, pf, pr)
+    if n == 0:
+        raise AnalysisError("PacketForecaster.predict: no loop over zipped (recorded, parsed) messages that adopts content found")
+
+
+def _pair_agreement_in(chk: Check, eng: Engine, rule: str, pf, pr) -> int:
     n = 0
     for lp in walk_local(pr.node):
         if not (isinstance(lp, ast.For) and isinstance(lp.iter, ast.Call) and call_name(lp.iter) == "zip" and isinstance(lp.target, ast.Tuple) and len(lp.target.elts) == 2
@@ -478,8 +496,8 @@ def pair_agreement_rule(chk: Check, eng: Engine, rule: str) -> None:
                     "parses that disagree with the recorded exchange in that attribute survive and are reported", keyparts="agreement-missing|" + ",".join(missing))
         else:
             chk.ok(rule, pr.fq, q.lineno, f"`{short(q, 60)}`: every pair of recorded / parsed message is compared in type, sender and recipient")
-    if n == 0:
-        raise AnalysisError("PacketForecaster.predict: no loop over zipped (recorded, parsed) messages that adopts content found")
+    return n
+
 
 
 def per_message_state_rule(chk: Check, eng: Engine, rule: str) -> None:
@@ -540,10 +558,20 @@ def scanner_index_rule(chk: Check, eng: Engine, rule: str) -> None:
     scanners: dict[str, int] = {}
     for c in walk_local(pnr.node):
         if isinstance(c, ast.Call) and isinstance(c.func, ast.Name):
-            for i, a in enumerate(c.args):
+            r = None
+            for i, a in [(i, a) for i, a in enumerate(c.args)] + [(k.arg, k.value) for k in c.keywords if k.arg]:
                 if isinstance(a, ast.Call) and call_name(a) == "get_received_msgs":
-                    r = eng.ix.resolve_name(mod, c.func.id)
+                    r = r or eng.ix.resolve_name(mod, c.func.id)
+                    if not isinstance(r, FuncInfo):
+                        # imported from another module of the package
+                        tgs, _how = eng.cg.resolve_call(pnr, c)
+                        cands = [g for g in eng.ix.all_functions if g.fq in tgs]
+                        r = cands[0] if len(cands) == 1 else r
                     if isinstance(r, FuncInfo) and any(isinstance(st, ast.Return) and isinstance(st.value, ast.Tuple) for st in walk_local(r.node)):
+                        if isinstance(i, str):
+                            if i not in r.params():
+                                continue
+                            i = r.params().index(i)
                         scanners[r.fq] = i
     if not scanners:
         raise AnalysisError("parse_next_remote_packet: no fragment scanner (a helper called with get_received_msgs() that returns a pair) found")
